@@ -610,9 +610,9 @@ pub mod mismatch {
         let n2b: [u8; N2MAX] = kani::any();
         let n2len: usize = kani::any();
         kani::assume(n2len <= N2MAX);
-        let n2 = &n2b[..n2len];
+        let n2 = place(&n2b[..n2len]);
         let (hb, hlen) = sym_hay::<HMAX>(0, HMAX);
-        let h = &hb.0[..hlen];
+        let h = place(&hb.0[..hlen]);
         if rev {
             let _ = twoway::FinderRev::new(&n1).rfind(h, n2);
         } else {
@@ -626,9 +626,9 @@ pub mod mismatch {
         let n2b: [u8; N2MAX] = kani::any();
         let n2len: usize = kani::any();
         kani::assume(n2len <= N2MAX);
-        let n2 = &n2b[N2MAX - n2len..];
+        let n2 = place(&n2b[N2MAX - n2len..]);
         let (hb, hlen) = sym_hay::<HMAX>(0, HMAX);
-        let h = &hb.0[..hlen];
+        let h = place(&hb.0[..hlen]);
         if rev {
             let _ = rabinkarp::FinderRev::new(&n1).rfind(h, n2);
         } else {
